@@ -6,8 +6,12 @@ use rsguest_support::alloc;
 
 #[derive(Default)]
 pub struct ProcMem {
-    /// blocks handed to the guest by this host: (addr, size, align)
-    pub handed: Vec<(u64, usize, usize)>,
+    /// number of blocks handed to the guest by this host
+    pub handed: u64,
+    /// addresses of the blocks allocated since `begin_call` (so that a pointer
+    /// stored into memory is written as a pointer, with provenance, not as an
+    /// integer: the guest will load it at pointer type)
+    pub recent: std::collections::HashSet<u64>,
     pub bytes_read: u64,
     pub bytes_written: u64,
 }
@@ -15,6 +19,9 @@ pub struct ProcMem {
 impl ProcMem {
     pub fn new() -> ProcMem {
         ProcMem::default()
+    }
+    pub fn begin_call(&mut self) {
+        self.recent.clear();
     }
 }
 
@@ -40,6 +47,16 @@ impl Memory for ProcMem {
         if addr < 4096 {
             return Err(format!("write at near-null address {addr:#x}"));
         }
+        if bytes.len() == std::mem::size_of::<usize>() {
+            let mut a = [0u8; 8];
+            a[..bytes.len()].copy_from_slice(bytes);
+            let v = u64::from_le_bytes(a);
+            if self.recent.contains(&v) {
+                unsafe { (addr as usize as *mut *mut u8).write_unaligned(std::ptr::with_exposed_provenance_mut(v as usize)) };
+                self.bytes_written += bytes.len() as u64;
+                return Ok(());
+            }
+        }
         unsafe { std::ptr::copy_nonoverlapping(bytes.as_ptr(), addr as usize as *mut u8, bytes.len()) };
         self.bytes_written += bytes.len() as u64;
         Ok(())
@@ -49,7 +66,8 @@ impl Memory for ProcMem {
         if size > 0 {
             // uninitialised padding must not look like data: poison
             unsafe { std::ptr::write_bytes(p as usize as *mut u8, 0xA5, size) };
-            self.handed.push((p, size, align));
+            self.handed += 1;
+            self.recent.insert(p);
         }
         Ok(p)
     }
